@@ -124,13 +124,14 @@ func checkC19(c *Check) {
 						cond = x
 					case *ssa.Call:
 						m := calleeMethod(x)
-						if len(x.Call.Args) != 2 || x.Call.Args[1] != v {
+						if len(x.Call.Args) != 2 || (x.Call.Args[1] != v && x.Call.Args[0] != v) {
 							continue
 						}
-						switch m {
-						case "GT", "GTE":
-							dir = "upper"
-						case "LT", "LTE":
+						limitRight := x.Call.Args[1] == v
+						switch {
+						case (m == "GT" || m == "GTE") && limitRight, (m == "LT" || m == "LTE") && !limitRight:
+							dir = "upper" // value > limit, or limit < value => reject
+						case (m == "LT" || m == "LTE") && limitRight, (m == "GT" || m == "GTE") && !limitRight:
 							dir = "lower"
 						default:
 							continue
